@@ -626,7 +626,16 @@ class Interp:
         return [self.eval(x, frame) for x in e.elts]
 
     def e_Dict(self, e, frame):
-        return {self.eval(k, frame): self.eval(v, frame) for k, v in zip(e.keys, e.values)}
+        out = {}
+        for k, v in zip(e.keys, e.values):
+            if k is None:
+                m = self.eval(v, frame)
+                if not isinstance(m, dict):
+                    raise Undecidable(f"** of a non-dict in {unparse(e)}")
+                out.update(m)
+            else:
+                out[self.eval(k, frame)] = self.eval(v, frame)
+        return out
 
     def e_JoinedStr(self, e, frame):
         parts = []
